@@ -76,6 +76,7 @@ func (x *world) waitingNow(self *vsync.Thread, key interface{}) []*vsync.Thread 
 func (x *world) run(name string, c call) {
 	w := x.w
 	self := w.S.Cur()
+	w.Touch()
 	ahead := x.waitingNow(self, c.key)
 	x.active[c.key]++
 	x.acq[self] = c.key
@@ -87,6 +88,7 @@ func (x *world) run(name string, c call) {
 	} else {
 		h, err = x.m.AcquireRead(ctx, c.key)
 	}
+	w.Touch()
 	delete(x.acq, self)
 	if err != nil {
 		if c.ctx == 0 || !x.ctxs[c.ctx].IsCanceled() {
@@ -120,6 +122,7 @@ func (x *world) run(name string, c call) {
 	} else {
 		vsync.Yield()
 	}
+	w.Touch()
 	if c.write {
 		x.writers[c.key]--
 		x.m.ReleaseWrite(c.key, h)
@@ -127,6 +130,7 @@ func (x *world) run(name string, c call) {
 		x.readers[c.key]--
 		x.m.ReleaseRead(c.key, h)
 	}
+	w.Touch()
 	x.active[c.key]--
 }
 
@@ -174,6 +178,7 @@ func scenario(mm mkMap, p prog) *mc.Scenario {
 				w.Go(fmt.Sprintf("cancel%d", ci), func() { x.ctxs[ci].Cancel() })
 			}
 			w.Join()
+			w.Touch()
 			// no residue, no leaked tokens
 			if n := semap.VerifEntries(x.m); n != 0 {
 				w.Failf("every holder released and nobody waits, but the container still keeps %d entr(ies)", n)
